@@ -88,27 +88,23 @@ def tryUintBits (bs : Bits) (pos n : Nat) : Res Nat :=
 
 /-! ### bitio/reversebytes64.go -/
 
+/-- math/bits.ReverseBytes64: all eight bytes of the word reversed -/
+def bswap64 (n : BitVec 64) : BitVec 64 :=
+  (n &&& 0xff#64) <<< 56 ||| (n &&& 0xff00#64) <<< 40 ||| (n &&& 0xff0000#64) <<< 24 ||| (n &&& 0xff000000#64) <<< 8
+    ||| (n &&& 0xff00000000#64) >>> 8 ||| (n &&& 0xff0000000000#64) >>> 24 ||| (n &&& 0xff000000000000#64) >>> 40
+    ||| (n &&& 0xff00000000000000#64) >>> 56
+
 /-- ReverseBytes64, case by case (Go: `&`, `<<`, `>>` bind tighter than `|`); `none` = the
     `default: panic` branch -/
 def reverseBytes64 (nBits : Nat) (n : BitVec 64) : Option (BitVec 64) :=
   if nBits ≤ 8 then some n
-  else if nBits ≤ 16 then some ((n &&& 0xff00#64) >>> 8 ||| (n &&& 0xff#64) <<< 8)
-  else if nBits ≤ 24 then some ((n &&& 0xff#64) <<< 16 ||| (n &&& 0xff00#64) ||| (n &&& 0xff0000#64) >>> 16)
-  else if nBits ≤ 32 then
-    some ((n &&& 0xff#64) <<< 24 ||| (n &&& 0xff00#64) <<< 8 ||| (n &&& 0xff0000#64) >>> 8 ||| (n &&& 0xff000000#64) >>> 24)
-  else if nBits ≤ 40 then
-    some ((n &&& 0xff#64) <<< 32 ||| (n &&& 0xff00#64) <<< 16 ||| (n &&& 0xff0000#64) ||| (n &&& 0xff000000#64) >>> 16
-          ||| (n &&& 0xff00000000#64) >>> 32)
-  else if nBits ≤ 48 then
-    some ((n &&& 0xff#64) <<< 40 ||| (n &&& 0xff00#64) <<< 24 ||| (n &&& 0xff0000#64) <<< 8 ||| (n &&& 0xff000000#64) >>> 8
-          ||| (n &&& 0xff00000000#64) >>> 24 ||| (n &&& 0xff0000000000#64) >>> 40)
-  else if nBits ≤ 56 then
-    some ((n &&& 0xff#64) <<< 48 ||| (n &&& 0xff00#64) <<< 32 ||| (n &&& 0xff0000#64) <<< 16 ||| (n &&& 0xff000000#64)
-          ||| (n &&& 0xff00000000#64) >>> 16 ||| (n &&& 0xff0000000000#64) >>> 32 ||| (n &&& 0xff000000000000#64) >>> 48)
-  else if nBits ≤ 64 then
-    some ((n &&& 0xff#64) <<< 56 ||| (n &&& 0xff00#64) <<< 40 ||| (n &&& 0xff0000#64) <<< 24 ||| (n &&& 0xff000000#64) <<< 8
-          ||| (n &&& 0xff00000000#64) >>> 8 ||| (n &&& 0xff0000000000#64) >>> 24 ||| (n &&& 0xff000000000000#64) >>> 40
-          ||| (n &&& 0xff00000000000000#64) >>> 56)
+  else if nBits ≤ 16 then some (((n &&& 0xff00#64) >>> 8) ||| ((n &&& 0xff#64) <<< 8))
+  else if nBits ≤ 24 then some ((((n &&& 0xff#64) <<< 16) ||| (n &&& 0xff00#64)) ||| ((n &&& 0xff0000#64) >>> 16))
+  else if nBits ≤ 32 then some (((((n &&& 0xff#64) <<< 24) ||| ((n &&& 0xff00#64) <<< 8)) ||| ((n &&& 0xff0000#64) >>> 8)) ||| ((n &&& 0xff000000#64) >>> 24))
+  else if nBits ≤ 40 then some ((((((n &&& 0xff#64) <<< 32) ||| ((n &&& 0xff00#64) <<< 16)) ||| (n &&& 0xff0000#64)) ||| ((n &&& 0xff000000#64) >>> 16)) ||| ((n &&& 0xff00000000#64) >>> 32))
+  else if nBits ≤ 48 then some (((((((n &&& 0xff#64) <<< 40) ||| ((n &&& 0xff00#64) <<< 24)) ||| ((n &&& 0xff0000#64) <<< 8)) ||| ((n &&& 0xff000000#64) >>> 8)) ||| ((n &&& 0xff00000000#64) >>> 24)) ||| ((n &&& 0xff0000000000#64) >>> 40))
+  else if nBits ≤ 56 then some ((((((((n &&& 0xff#64) <<< 48) ||| ((n &&& 0xff00#64) <<< 32)) ||| ((n &&& 0xff0000#64) <<< 16)) ||| (n &&& 0xff000000#64)) ||| ((n &&& 0xff00000000#64) >>> 16)) ||| ((n &&& 0xff0000000000#64) >>> 32)) ||| ((n &&& 0xff000000000000#64) >>> 48))
+  else if nBits ≤ 64 then some (((((((((n &&& 0xff#64) <<< 56) ||| ((n &&& 0xff00#64) <<< 40)) ||| ((n &&& 0xff0000#64) <<< 24)) ||| ((n &&& 0xff000000#64) <<< 8)) ||| ((n &&& 0xff00000000#64) >>> 8)) ||| ((n &&& 0xff0000000000#64) >>> 24)) ||| ((n &&& 0xff000000000000#64) >>> 40)) ||| ((n &&& 0xff00000000000000#64) >>> 56))
   else none
 
 /-- SPECIFICATION of a little-endian read of whole bytes: Σ byteᵢ · 256^i over the bytes in stream order -/
@@ -132,9 +128,7 @@ def tryUEndian (bs : Bits) (pos n : Nat) (e : Endian) : Res Nat :=
 /-- read.go:43-49 on uint64/int64: `n&(1<<(nBits-1)) > 0`, `-int64((^n & ((1 << nBits) - 1)) + 1)`.
     In Go `1 << 64` on a uint64 is 0, so the mask for nBits = 64 is all ones — as `BitVec` does. -/
 def twosComplement (nBits : Nat) (n : BitVec 64) : Int :=
-  if (n &&& ((1#64) <<< (nBits - 1))) ≠ 0#64 then
-    (-((~~~n &&& (((1#64) <<< nBits) - 1#64)) + 1#64)).toInt
-  else n.toInt
+  if (n &&& ((1#64 <<< ((nBits - 1))))) ≠ 0#64 then (-((((~~~n) &&& ((((1#64 <<< nBits)) - 1#64)))) + 1#64)).toInt else n.toInt
 
 /-- trySEndian: nBits < 1 is rejected (read.go:36) -/
 def trySEndian (bs : Bits) (pos n : Nat) (e : Endian) : Res Int :=
@@ -253,13 +247,13 @@ def u32 (n : Nat) : Nat := n % 2 ^ 32
 
 /-- float16.go:121-124 `for frac&float32ExpMask == 0 { frac <<= 1; exp-- }` on uint32 (32 shifts empty
     a uint32, so 32 units of fuel are enough; the loop is only entered with frac ≠ 0) -/
-def f16NormLoop : Nat → Nat → Nat → Nat × Nat
+def expandF16ToF32_loop0 : Nat → Nat → Nat → Nat × Nat
   | 0, frac, exp => (frac, exp)
   | fuel+1, frac, exp =>
     if (frac &&& 0x7f800000) = 0 then
       let frac := (u32 (frac <<< 1))
       let exp := (u32 (exp + 2 ^ 32 - 1))
-      f16NormLoop fuel frac exp
+      expandF16ToF32_loop0 fuel frac exp
     else (frac, exp)
 
 /-- float16.go:104-129 expandF16ToF32, statement by statement (an `if` without else duplicates the
@@ -277,7 +271,7 @@ def expandF16ToF32 (in_ : Nat) : Nat :=
         sign
       else
         let exp := (u32 (exp + 1))
-        let (frac, exp) := f16NormLoop 32 frac exp
+        let (frac, exp) := expandF16ToF32_loop0 32 frac exp
         let frac := (frac &&& 0x007fffff)
         let exp := (u32 (exp + (0x7f - 0xf)))
         ((sign ||| (u32 (exp <<< 23))) ||| frac)
